@@ -9,6 +9,24 @@ use rust_rule_engine::engine::facts::Facts;
 pub const ENTRIES: [&str; 14] = ["expr-ident", "expr-any", "grl-rules", "grl-modules", "bw-query", "bw-expr", "grl-query", "grl-queries",
     "stream-pattern", "stream-join", "aggregate", "disjunction", "nested", "nested-has"];
 
+/// the AST of the backward-chaining expression parser, in the encoding of coq/Model/BwExpr.v
+fn enc_bexp(e: &rust_rule_engine::backward::expression::Expression) -> Sx {
+    use rust_rule_engine::backward::expression::Expression as E;
+    use rust_rule_engine::types::{Operator as O, Value as V};
+    match e {
+        E::Field(s) => Sx::l(vec![Sx::n(0), Sx::s(s)]),
+        E::Literal(v) => Sx::l(vec![Sx::n(1), match v {
+            V::Boolean(b) => Sx::l(vec![Sx::n(0), Sx::b(*b)]), V::Null => Sx::l(vec![Sx::n(1)]), V::String(t) => Sx::l(vec![Sx::n(2), Sx::s(t)]),
+            V::Number(x) => Sx::l(vec![Sx::n(3), Sx::n(if x.is_nan() { 0x7ff8000000000000 } else { x.to_bits() })]), _ => Sx::l(vec![Sx::n(9)]) }]),
+        E::Variable(s) => Sx::l(vec![Sx::n(2), Sx::s(s)]),
+        E::Comparison { left, operator, right } => Sx::l(vec![Sx::n(3), enc_bexp(left),
+            Sx::n(match operator { O::Equal => 0, O::NotEqual => 1, O::GreaterThanOrEqual => 2, O::LessThanOrEqual => 3, O::GreaterThan => 4, O::LessThan => 5, _ => 9 }), enc_bexp(right)]),
+        E::And { left, right } => Sx::l(vec![Sx::n(4), enc_bexp(left), enc_bexp(right)]),
+        E::Or { left, right } => Sx::l(vec![Sx::n(5), enc_bexp(left), enc_bexp(right)]),
+        E::Not(x) => Sx::l(vec![Sx::n(6), enc_bexp(x)]),
+    }
+}
+
 fn call(entry: u64, s: &str) -> (u64, Option<String>) {
     use rust_rule_engine::backward as bw;
     use rust_rule_engine::parser::grl::{stream_syntax as ss, GRLParser};
@@ -21,7 +39,7 @@ fn call(entry: u64, s: &str) -> (u64, Option<String>) {
         2 => r(GRLParser::parse_rules(s)),
         3 => r(GRLParser::parse_with_modules(s)),
         4 => r(bw::query::QueryParser::parse(s)),
-        5 => r(bw::expression::ExpressionParser::parse(s)),
+        5 => match bw::expression::ExpressionParser::parse(s) { Ok(e) => (0, Some(enc_bexp(&e).show())), Err(_) => (1, None) },
         6 => r(bw::grl_query::GRLQueryParser::parse(s)),
         7 => r(bw::grl_query::GRLQueryParser::parse_queries(s)),
         8 => r(ss::parse_stream_pattern(s)),
@@ -149,6 +167,17 @@ pub fn gen(tier: Tier, rng: &mut Rng) -> Vec<Sx> {
             } else { a += 1; }
         }
     }
+    // 4d. the backward-chaining expression parser on its own alphabet (the model predicts the AST): identifiers, literals of every
+    //     kind, escapes, numbers with dots and signs, all operators, parentheses, negation, variables, blanks, a few non-ASCII
+    //     characters of every class (letter, digit, other numeric, white space, symbol)
+    let qalpha: Vec<&str> = vec!["a", "b", "X", "_", ".", "1", "0", "42", "-", "\"", "\\", "!", "(", ")", "?", "&&", "||", "==", "!=", ">=", "<=", ">", "<", "=", "&", "|",
+        " ", "\t", "true", "false", "null", "n", "t", "é", "٣", "½", "\u{3000}", "💥", "ß", "1.5", "-7", "1.", ".5", "1.2.3", "--1", "truex", "null_", "9223372036854775808", "1e5"];
+    let n4 = if tier == Tier::Thorough { 150000 } else { 5000 };
+    for _ in 0..n4 { let k = rng.range(0, 12); let s: String = (0..k).map(|_| *rng.pick(&qalpha)).collect(); v.push(mk(5, &s)); }
+    for s in ["User.IsVIP == true && Order.Total > 1000 || !(User.IsBanned == true)", "(a == true || b == true) && c == \"x y\" && ?X != 42.5", "a == \"q\\\"r\\n\" || !(!b)", "  x  "] {
+        let cs: Vec<char> = s.chars().collect();
+        for k in 0..=cs.len() { let pre: String = cs[..k].iter().collect(); v.push(mk(5, &pre)); let suf: String = cs[k..].iter().collect(); v.push(mk(5, &suf)); }
+    }
     // 5. deep prefix chains and nesting up to 4 KiB
     for e in 1..nent { for (p, q) in [("!", ""), ("(", ""), ("(", ")"), ("[", "]"), ("{", "}"), ("NOT ", ""), ("-", ""), ("!(", ")"), ("exists(", ")")] {
         for n in [33usize, 500, 4000 / (p.len() + q.len()).max(1)] { let s = format!("{}X.a == 1{}", p.repeat(n), q.repeat(n)); v.push(mk(e, &s[..s.len().min(4096)])); } } }
@@ -162,7 +191,7 @@ pub fn run(case: &Sx) -> (Sx, String) {
     std::panic::set_hook(Box::new(|info| { if let Some(l) = info.location() { *LAST_LOC.lock().unwrap() = format!("{}:{}", l.file(), l.line()); } }));
     let r = std::panic::catch_unwind(|| call(entry, &s));
     match r {
-        Ok((class, leaf)) => (Sx::l(vec![Sx::n(class), match leaf { Some(l) if entry == 0 => Sx::l(vec![Sx::s(&l)]), _ => Sx::l(vec![]) }]),
+        Ok((class, leaf)) => (Sx::l(vec![Sx::n(class), match leaf { Some(l) if entry == 0 => Sx::l(vec![Sx::s(&l)]), Some(l) if entry == 5 => Sx::l(vec![Sx::parse(&l)]), _ => Sx::l(vec![]) }]),
                               format!("{} {}", ENTRIES[entry as usize], if class == 0 { "ok" } else { "err" })),
         Err(e) => { let msg = if let Some(s) = e.downcast_ref::<String>() { s.clone() } else if let Some(s) = e.downcast_ref::<&str>() { s.to_string() } else { "?".into() };
                     (Sx::l(vec![Sx::n(if LAST_LOC.lock().unwrap().contains("/rexile-") { 3 } else { 2 }), Sx::l(vec![])]), format!("{} PANIC at {} {}", ENTRIES[entry as usize], LAST_LOC.lock().unwrap(), msg.chars().take(60).collect::<String>().replace('\n', " "))) }
